@@ -495,7 +495,7 @@ def build_ocaml():
         if os.path.exists(exe) and os.path.exists(stamp) and open(stamp).read() == h.hexdigest():
             return True, 'cached'
         os.makedirs(OCAML_DIR, exist_ok=True)
-        ok, log, dt = coq_make(['model/FrameDec.vo', 'model/Matcher.vo', 'model/FrameEnc.vo', 'model/IoNoStd.vo', 'model/BitRev64.vo', 'model/SeqEnc.vo', 'model/FseEnc.vo', 'model/SeqSection.vo', 'model/LitEnc.vo', 'model/BlockEnc.vo', 'model/FseNorm.vo', 'model/WeightEnc.vo'])
+        ok, log, dt = coq_make(['model/FrameDec.vo', 'model/Matcher.vo', 'model/FrameEnc.vo', 'model/IoNoStd.vo', 'model/BitRev64.vo', 'model/SeqEnc.vo', 'model/FseEnc.vo', 'model/SeqSection.vo', 'model/LitEnc.vo', 'model/BlockEnc.vo', 'model/FseNorm.vo', 'model/WeightEnc.vo', 'model/HufCounts.vo'])
         if not ok:
             return False, log[-1500:]
         rc, out, err, dt = run(['coqc', '-Q', COQ, 'Zrs', os.path.join(COQ, 'extract', 'Extract.v')], cwd=OCAML_DIR, timeout=600)
